@@ -180,6 +180,41 @@ func TestC13Enumerated(t *testing.T) {
 		})
 }
 
+// genLiberalLine assembles a line from the same segments as genMarkupLine but without any of the
+// restrictions the C13 model needs (balance, no re-opening, whitespace-swallowing markers only after text):
+// the model-free checks C14 and C15 quantify over all lines.
+func genLiberalLine(t *rapid.T) string {
+	n := rapid.IntRange(0, 8).Draw(t, "pieces")
+	var b strings.Builder
+	for i := 0; i < n; i++ {
+		switch rapid.IntRange(0, 15).Draw(t, "piece") {
+		case 0, 1, 2:
+			b.WriteString(genText(t))
+		case 3:
+			b.WriteString(rapid.SampledFrom([]string{" ", " x", "y ", ": ", "Bob: "}).Draw(t, "ws"))
+		case 4, 5:
+			b.WriteString(`\` + rapid.SampledFrom([]string{"[", "]"}).Draw(t, "esc"))
+		case 6, 7:
+			seg := mseg{K: "open", Name: rapid.SampledFrom(markupNames[:4]).Draw(t, "name"), Pad: genPads(t)}
+			genMarkerProps(t, &seg)
+			b.WriteString(renderSeg(seg))
+		case 8, 9:
+			b.WriteString(renderSeg(mseg{K: "close", Name: rapid.SampledFrom(markupNames[:4]).Draw(t, "name"), Pad: genPads(t)}))
+		case 10:
+			b.WriteString("[/]")
+		case 11, 12:
+			seg := mseg{K: "self", Name: rapid.SampledFrom(markupNames).Draw(t, "name"), Pad: genPads(t)}
+			genMarkerProps(t, &seg)
+			b.WriteString(renderSeg(seg))
+		case 13, 14:
+			b.WriteString(renderSeg(genReplacement(t)))
+		default:
+			b.WriteString(rapid.SampledFrom(markupFragments).Draw(t, "frag"))
+		}
+	}
+	return b.String()
+}
+
 // ---------------------------------------------------------------------------------------
 // C15
 
@@ -206,7 +241,7 @@ func checkResultSafe(input string, res *markup.ParseResult) attrSafety {
 			out.fail = fmt.Sprintf("ParseMarkup(%q): TextForAttribute(%q) panicked: %v", input, a.Name, p)
 			return out
 		}
-		if utf8.RuneCountInString(got) != a.Length && utf8.ValidString(res.Text) {
+		if utf8.RuneCountInString(got) != a.Length {
 			out.fail = fmt.Sprintf("ParseMarkup(%q): TextForAttribute(%q) has %d characters, attribute length is %d", input, a.Name, utf8.RuneCountInString(got), a.Length)
 			return out
 		}
@@ -244,6 +279,7 @@ func runC15(c textCase) Verdict {
 
 var markupFragments = []string{"[", "]", "[/", "/]", "[/]", "=", "\"", "\\", "\\[", "\\]", ":", ": ", " ", "  ", "\t", "a", "b", "nomarkup", "[nomarkup]", "[/nomarkup]",
 	"select", "plural", "ordinal", "value=", "value=1", "one=\"x\"", "other=\"%\"", "1", "0", ".", "1.5", "true", "false", "trimwhitespace=", "trimwhitespace=true",
+	"one=\"%\\\\\"", "\\\\\"", "\\%", "[plural value=1 one=\"", "[select value=x x=\"", "\" /]", "\"]", "[nomarkup]\xff[/nomarkup]", "\xe9", "\xf0\x9f",
 	"[a]", "[/a]", "[a/]", "[b]", "[/b]", "[b /]", "é", "日本", "😀", "\u00a0", "\u3000", "character", "[character name=\"x\"]", "name", "x", "%", "\xff", "\xc3", "\x00", "٣", "[a=", "[a x=", "_"}
 
 func genMarkupSoup(t *rapid.T) string {
@@ -256,7 +292,22 @@ func genMarkupSoup(t *rapid.T) string {
 }
 
 func genC15(t *rapid.T) textCase {
-	switch rapid.IntRange(0, 9).Draw(t, "kind") {
+	switch rapid.IntRange(0, 13).Draw(t, "kind") {
+	case 10, 11:
+		return textCase{Input: genLiberalLine(t), Kind: "liberal"}
+	case 12:
+		// raw sections protect their content from the main loop: arbitrary bytes inside
+		raw := strings.NewReplacer("[", "(", "]", ")").Replace(string(rapid.SliceOfN(rapid.Byte(), 0, 12).Draw(t, "raw")))
+		pre := rapid.SampledFrom([]string{"", "x ", "é", "[a]"}).Draw(t, "pre")
+		post := rapid.SampledFrom([]string{"", " y", "[b/]", "[/]", "z[c]w[/c]"}).Draw(t, "post")
+		return textCase{Input: pre + "[nomarkup]" + raw + "[/nomarkup]" + post, Kind: "raw-bytes"}
+	case 13:
+		s := genLiberalLine(t)
+		if len(s) > 0 {
+			a := rapid.IntRange(0, len(s)-1).Draw(t, "a")
+			s = s[:a] + string([]byte{rapid.Byte().Draw(t, "byte")}) + s[a:]
+		}
+		return textCase{Input: s, Kind: "liberal-byte"}
 	case 0:
 		return textCase{Input: string(rapid.SliceOfN(rapid.Byte(), 0, 64).Draw(t, "bytes")), Kind: "bytes"}
 	case 1:
@@ -344,7 +395,11 @@ func embeddable(line string) bool {
 	return !strings.HasPrefix(line, "title:")
 }
 
-func runC14(c c14Case) Verdict {
+func runC14(c c14Case) Verdict { return decideC14(c, true) }
+
+func runC14ParserOnly(c c14Case) Verdict { return decideC14(c, false) }
+
+func decideC14(c c14Case, runnerLevel bool) Verdict {
 	fresh, p1 := parseWith(&markup.LineParser{}, c.Probe)
 	if p1 != nil {
 		return Verdict{Discard: "probe panics on a fresh parser (C15's business)"}
@@ -375,7 +430,7 @@ func runC14(c c14Case) Verdict {
 	cls := []string{fmt.Sprintf("history=%d", min(len(c.History), 4)), fmt.Sprintf("failing-history=%d", min(failing, 3))}
 
 	// runner level: the same line reached through different dialogue prefixes
-	if embeddable(c.Probe) {
+	if runnerLevel && embeddable(c.Probe) {
 		var hist []string
 		for _, h := range c.History {
 			if embeddable(h) {
@@ -444,7 +499,12 @@ func genC14(t *rapid.T) c14Case {
 	var c c14Case
 	n := rapid.IntRange(0, 6).Draw(t, "history")
 	line := func() string {
-		switch rapid.IntRange(0, 5).Draw(t, "kind") {
+		switch rapid.IntRange(0, 8).Draw(t, "kind") {
+		case 6, 7:
+			return genLiberalLine(t)
+		case 8:
+			s := genLiberalLine(t)
+			return s[:rapid.IntRange(0, len(s)).Draw(t, "cut")]
 		case 0:
 			return genMarkupSoup(t)
 		case 1:
@@ -464,3 +524,75 @@ func genC14(t *rapid.T) c14Case {
 var c14Pure = Register(Prop[c14Case]{ID: "C14", Name: "pure", Gen: genC14, Run: runC14})
 
 func TestC14Pure(t *testing.T) { Check(t, c14Pure) }
+
+// Small-scope exhaustive C14: every (history line, probe line) pair assembled from a set of atoms that
+// covers each parser state that could leak (pending whitespace, escapes, open markers, failures inside a
+// marker, replacement markers of different names closed by name).
+var c14Atoms = []string{"x", " ", " y", "z ", `\[`, "[a]", "[/a]", "[/]", "[b/]", "[a", "[nomarkup]r[/nomarkup]", `[select value=m m=q]s[/select]`, ": "}
+
+func atomLines(maxAtoms int) []string {
+	var out []string
+	var rec func(prefix string, left int)
+	rec = func(prefix string, left int) {
+		if prefix != "" {
+			out = append(out, prefix)
+		}
+		if left == 0 {
+			return
+		}
+		for _, a := range c14Atoms {
+			rec(prefix+a, left-1)
+		}
+	}
+	rec("", maxAtoms)
+	return out
+}
+
+var c14Pairs = Register(Prop[c14Case]{ID: "C14", Name: "pairs", Run: runC14ParserOnly})
+
+func TestC14Pairs(t *testing.T) {
+	hmax, pmax := envInt("VERIF_C14_HISTORY_ATOMS", 2), envInt("VERIF_C14_PROBE_ATOMS", 3)
+	Enumerate(t, c14Pairs, true, fmt.Sprintf("every pair (history line of <= %d atoms, probe line of <= %d atoms) over %d atoms", hmax, pmax, len(c14Atoms)),
+		func(yield func(c14Case) bool) {
+			probes := atomLines(pmax)
+			for _, h := range atomLines(hmax) {
+				for _, p := range probes {
+					if !yield(c14Case{History: []string{h}, Probe: p}) {
+						return
+					}
+				}
+			}
+		})
+}
+
+// C15 on a reused parser: every result produced along a history of lines must be safe to use.
+func runC15Reused(c c14Case) Verdict {
+	p := &markup.LineParser{}
+	attrs, errs := 0, 0
+	for i, line := range append(append([]string{}, c.History...), c.Probe) {
+		var res *markup.ParseResult
+		var err error
+		var panicked any
+		func() {
+			defer func() { panicked = recover() }()
+			res, err = p.ParseMarkup(line)
+		}()
+		if panicked != nil {
+			return failf("line %d of the history %q: ParseMarkup(%q) panicked: %v", i, c.History, line, panicked)
+		}
+		if err != nil {
+			errs++
+			continue
+		}
+		s := checkResultSafe(line, res)
+		if s.fail != "" {
+			return failf("after the history %q: %s", c.History[:min(i, len(c.History))], s.fail)
+		}
+		attrs += s.attrs
+	}
+	return Verdict{NonTrivial: attrs >= 1 && errs >= 1, Classes: []string{fmt.Sprintf("errors=%d", min(errs, 3))}}
+}
+
+var c15Reused = Register(Prop[c14Case]{ID: "C15", Name: "reused-parser", Gen: genC14, Run: runC15Reused})
+
+func TestC15Reused(t *testing.T) { Check(t, c15Reused) }
